@@ -198,7 +198,11 @@ class Layout:
                 continue
             for si, (typ, st) in enumerate(self.subtables(lk)):
                 if typ == 4:
-                    if self.skipped(base, lk) or self.classes.get(base, 0) == 3 and False:
+                    if self.skipped(base, lk):
+                        continue
+                    # the base is found by looking back over marks: a glyph that GDEF classes as a
+                    # mark is never the base of a mark-to-base attachment
+                    if self.classes and self.classes.get(base, 0) == 3:
                         continue
                     if mark not in st.MarkCoverage.glyphs or base not in st.BaseCoverage.glyphs:
                         continue
@@ -207,6 +211,8 @@ class Layout:
                     ba = self._anchor(brec.BaseAnchor[mrec.Class])
                     kind = "base"
                 elif typ == 5:
+                    if self.classes and self.classes.get(base, 0) == 3:
+                        continue
                     if mark not in st.MarkCoverage.glyphs or base not in st.LigatureCoverage.glyphs:
                         continue
                     mrec = st.MarkArray.MarkRecord[st.MarkCoverage.glyphs.index(mark)]
@@ -218,6 +224,10 @@ class Layout:
                     ba = self._anchor(comps[ci].LigatureAnchor[mrec.Class])
                     kind = "lig"
                 elif typ == 6:
+                    # mark-to-mark looks back for a preceding MARK glyph: with glyph classes in GDEF a
+                    # glyph of another class is never reached by it
+                    if self.classes and self.classes.get(base, 0) != 3:
+                        continue
                     if mark not in st.Mark1Coverage.glyphs or base not in st.Mark2Coverage.glyphs:
                         continue
                     mrec = st.Mark1Array.MarkRecord[st.Mark1Coverage.glyphs.index(mark)]
